@@ -193,10 +193,13 @@ def points(rep: Report) -> None:
     names = ["x", "y", "z", "_a", "x1", "self", "theta", "é", "kwargs", "point", "Point", "__x__",
              # legal variable names that keyword-argument syntax cannot express (F4): identifiers that NFKC
              # normalisation changes, reserved words, digits first
-             "\u00b5", "\u017f", "\uff58", "\u212b", "class", "lambda", "None", "1x", "123", "\u03bc"]
+             "\u00b5", "\u017f", "\uff58", "\u212b", "class", "lambda", "None", "1x", "123", "\u03bc",
+             # identifiers outside the Basic Multilingual Plane (one code point, two UTF-16 units; an escaping routine
+             # that thinks in \\uXXXX writes them as a surrogate pair), letters with combining marks, other scripts
+             "\U00020000", "\U0001d465", "\U0001d4e7y", "e\u0301", "\u0436", "\u4e2d", "\u03b1\u0332"]
     b = Batch()
     work = []
-    for _ in range(150):
+    for _ in range(400):
         ns = rng.sample(names, rng.randint(0, 4))
         d = {n: rng.choice([1, 2.5, -3, 0.0, -0.125, 1e22, 7, 1e-7] + HARD) for n in ns}
         asc = all(n.isascii() for n in ns)      # the model knows "can be written as a keyword" for ASCII names (NFKC is the identity there)
